@@ -934,6 +934,23 @@ def rule_walk(ctx, prop, dedup_only=False):
             # (closure upvar provenance shares a root with the contains key)
         if dedup_only:
             continue     # C19: one job per file (two jobs on one file race on its contents); the selection clauses are C16's
+        # (1a) "is it a file?" is asked of the path (`Path::is_file`, which follows symbolic links), not of the walker's
+        # lstat-based entry type: a symlinked *.lua below a directory argument is selected like any other file
+        isf = [(b, t) for b, t in f.calls() if callee(t).endswith("Path::is_file")]
+        lst = sorted({callee(t).split("::")[-1] for g in [f] + [x for x in prog.fns("stylua") if x.path.startswith("format::{closure")]
+                      for b, t in g.calls() if re.search(r"DirEntry::file_type$|FileType::is_file$|fs::symlink_metadata$|Path::symlink_metadata$|Path::is_symlink$", callee(t))})
+        okf = False
+        for b, t in isf:
+            e = bool_edge(f, b)
+            if e and e[0] is not None and f.dominates(e[0], db):
+                okf = True
+        rep.inst("stylua::format dispatch guarded by Path::is_file of the entry's path", {"lstat_based_calls": lst}, cfg, ok=okf and not lst)
+        if not okf or lst:
+            rep.violation("stylua::format file-test-not-following-links" + (f" via={','.join(lst)}" if lst else ""),
+                          "the format_file dispatch is not guarded by `path.is_file()`" + (f" (the entry's kind is taken from {lst})" if lst else "") +
+                          ": the walker reports a symbolic link below a directory argument as a link, not as a file, so a symlinked "
+                          "Lua file that matches the glob and is not ignored is silently skipped (and selected again when named explicitly)",
+                          f.loc(disp[1]["sp"]), cfg)
         # (1b) every path argument becomes a walker root: a root (depth 0) is what exempts an explicitly named file from the
         # ignore / hidden / glob filters, so `WalkBuilder::add` runs for every element of opt.files[1..]
         adds = [(b, t) for b, t in f.calls() if re.search(r"WalkBuilder::add$", callee(t))]
